@@ -232,6 +232,9 @@ SESSION_SEEDS = [
     "{a: [p, q, r, s], b: {a: x, b: y}}",
     "[[p, q], [p, q], x]",
     "{a: &A x, b: [*A, y, z], c: *A}",
+    # an Array-of-Hashes whose members are replaced in place by scalars
+    # between two searches through the same Processor
+    "[{a: x}, {a: y}, {b: z}]",
 ]
 SESSION_MENU = [
     ("delete", (("idx", 0),), None), ("delete", (("idx", -1),), None),
@@ -249,6 +252,10 @@ SESSION_MENU = [
     ("set", (("key", "a"),), "n"),
     ("query", (("idx", 0),), None), ("query", (("key", "a"), ("idx", 0)), None),
     ("query", (("trav",),), None),
+    ("set", (("idx", 1),), 8080), ("set", (("idx", 2),), "m"),
+    ("query", (("search", ".", "=", "a", False),), None),
+    ("query", (("search", ".", "^", "a", True),), None),
+    ("query", (("search", "a", "=", "x", False),), None),
 ]
 
 
@@ -294,17 +301,23 @@ def session_run(st, text, seq):
         pre = editrun.fresh(doc)
         st.transitions += 1
         if op == "query":
+            from yamlpath.exceptions import YAMLPathException
+            ncs = []
+            try:
+                for nc in proc.get_nodes(ptext, mustexist=True):
+                    ncs.append(nc)
+            except YAMLPathException:
+                ncs = None
+            except Exception as ex:         # pylint: disable=broad-except
+                st.fail("session|query|crash:%s" % type(ex).__name__, case,
+                        "nodes or a YAML Path error", "%s@%s" % (
+                            type(ex).__name__, qrun.where(ex)))
+                return
             try:
                 exp = refquery.flat_ids(refquery.ev(
                     segs, refquery.root_ctx(doc)))
             except (refquery.Unspecified, refquery.ExpectError):
                 continue
-            ncs = []
-            try:
-                for nc in proc.get_nodes(ptext, mustexist=True):
-                    ncs.append(nc)
-            except Exception:               # pylint: disable=broad-except
-                ncs = None
             got = qrun.flat_ids(ncs) if ncs is not None else None
             if (got or []) != exp:
                 st.fail("session|query|wrong-nodes", case,
